@@ -35,13 +35,13 @@ CHECKS = {
    text="Laziness (nothing logged before the first poll, nor when dropped unpolled), step-internal concurrency (every active branch reaches its first pending point; an opened branch reaches its next one while siblings are pending), wake-up propagation and completion with the model's value are checked for every generated wake-up order; a hang shows deterministically as 'all gates open, root pending, not notified'. The future is built in the context of a second, idle runtime and polled on another, and also built and dropped outside any runtime; a quarter of the task-spawning programs use a sequentially awaiting custom joiner (the tasks must run regardless). Multi-threaded tokio schedulers are not explored."),
  "C10": dict(level="exploration", engine="R", design="6/C10",
    technique="property-based testing: event multiset and per-branch callback order of generated programs vs the reference model, clone- and drop-counting tokens",
-   text="Every evaluation of a user expression is an event; the multiset of events of a run must equal the model's (exactly once / exactly as often as the method calls it), clone counter 0, no live token after the result is dropped. Stage 2 (typed chains against the documented chain): iterator callbacks per element, fold / try_fold operands, clone- and drop-counted `Ck` values - equal event multisets, equal clone counts, nothing left alive. Stage 3 (library level, engine L): generated structures over all 23 operator spellings in which every user expression carries a unique marker; each marker must occur exactly once in the expansion."),
+   text="Every evaluation of a user expression is an event; the multiset of events of a run must equal the model's (exactly once / exactly as often as the method calls it), clone counter 0, no live token after the result is dropped. Stage 2 (typed chains against the documented chain): iterator callbacks per element, fold / try_fold operands, parenthesised blocks (ordinary expressions, evaluated in place), clone- and drop-counted `Ck` values - equal event multisets, equal clone counts, nothing left alive. Stage 3 (library level, engine L): generated structures over all 23 operator spellings in which every user expression carries a unique marker; each marker must occur exactly once in the expansion."),
  "C11": dict(level="exploration", engine="R", design="6/C11",
    technique="property-based testing: ordering invariant over the event log of generated programs with block operands on every hoistable grid position",
-   text="Capture phase of every executed step must be exactly the model's sequence (branch-then-position), after all earlier-step events and before all other events of its own step, also for captures inside nested wrappers and in thread/task-spawning macros. Stage 2 (typed chains): block operands on all 14 expression-operand operators incl. both operands of `^@` / `?^@`; per branch the captures must be evaluated once each in written order."),
+   text="Capture phase of every executed step must be exactly the model's sequence (branch-then-position), after all earlier-step events and before all other events of its own step, also for captures inside nested wrappers, in thread/task-spawning macros and when the branches run through a custom joiner (lazy / handle-passing, a third of the sync programs). Stage 2 (typed chains): block operands on all 14 expression-operand operators incl. both operands of `^@` / `?^@`; per branch the captures must be evaluated once each in written order."),
  "C12": dict(level="exploration", engine="R", design="6/C12",
    technique="property-based testing: snapshots of let-names taken inside generated block captures vs the reference model; result compared with the name-free model",
-   text="Random subsets of branches are named, captures of later steps snapshot random names (also of finished branches); every snapshot must equal the named branch's latest step result and the macro's value must be what the model (which ignores names) predicts; `let mut` names are borrowed mutably and changed in place. Stage 2 (typed chains, metamorphic): 85 % of the branches carry a name on the macro side only - also in front of initial values that bind weaker than a method call - and must equal the unnamed documented chain."),
+   text="Random subsets of branches are named, captures of later steps snapshot random names (also of finished branches); every snapshot must equal the named branch's latest step result and the macro's value must be what the model (which ignores names) predicts; `let mut` names are borrowed mutably and changed in place. Stage 2 (typed chains, metamorphic): 85 % of the branches carry a name on the macro side only - also in front of initial values that bind weaker than a method call, as raw identifiers, and handed in as `ident` metavariables by a `macro_rules!` wrapper around the invocation - and must equal the unnamed documented chain."),
  "C13": dict(level="exploration", engine="R", design="6/C13",
    technique="property-based testing with fault enumeration: handler-call events and results of generated (macro x handler kind x position) programs under enumerated failure plans",
    text="Legal handler kinds at every position among 1-5 branches under all 12 macro names, failure plans enumerated; handler called exactly once iff documented, with the values in branch order (argument hash), async handler futures run. The same command then runs the library-level half (engine L): every (configuration x handler kind x position) is enumerated - wrong kinds must be rejected, legal ones accepted - and every pair of handlers, plus generated structures with an inserted second handler, must be rejected by the parser."),
@@ -62,7 +62,7 @@ CHECKS = {
    text="Stage 1: generated sequential programs whose user code does not allocate (preallocated event log) are evaluated under enumerated failure plans; the evaluating thread's allocation counter must not move across the macro expression. Stage 2: typed chains under the four non-spawning macros with values that are neither Send nor Clone, move-only values, shared and mutable borrows of the caller's locals (also from handlers, whose futures hold the borrow in the async macros), up to 7 branches; the macro side must compile whenever the documented chain does and agree with it."),
  "C17": dict(level="exploration", engine="R", design="6/C17",
    technique="property-based testing: wide / long generated grid programs with captures on most positions against the reference model (index stage); typed chains with macro invocations nested in operands, captures and initial values to depth 3, compared with the documented chain (nesting stage)",
-   text="Stage 1: programs with up to 24 branches x 24 actions per step and block captures on 70 % of the operand positions under the eight macro kinds - a clash between any two generated names makes a branch use another position's closure or value, which the model comparison shows. Stage 2: every nested invocation (12 macro names; inside operands, block captures, initial values and handlers; depth <= 3) is evaluated once inside an expansion and once in plain Rust and must agree."),
+   text="Stage 1: programs with up to 24 branches x 24 actions per step and block captures on 70 % of the operand positions under the eight macro kinds - a clash between any two generated names makes a branch use another position's closure or value, which the model comparison shows. Stage 2: every nested invocation (12 macro names; inside operands, block captures, initial values and handlers; depth <= 3) is evaluated once inside an expansion and once in plain Rust and must agree; a quarter of the programs instead give the branches `let` names that are also locals of the caller and mention them in the handler, which must see the caller's locals."),
  "C16": dict(level="exploration", engine="R", design="6/C16",
    technique="property-based testing with logging harness joiners and a stand-in futures crate: generated programs x legal option prefixes through the real proc-macros, invariant over the joiner's own log plus the reference model; exhaustive enumeration of option orders / subsets / duplicates at library level",
    text="Stage 1 (runtime): generated programs with differing depths under the eight macro kinds carry option prefixes in rotated orders; eager, lazy (reverse-calling), handle-passing, async and self-transposing joiners log invocation count, arity and which branch each argument evaluates, and tag their outputs. Stage 2: `futures_crate_path(::jvrt::fx)` in a crate with no dependency called futures. Stage 3 (engine L): all 65 ordered option subsets x values x gluing first branches parse to the written fields, every single duplicate is rejected. One defect fixed (duplicate accepted after four passes), one open known finding (sync try + transpose_results(false) + unequal depths does not compile; probed on every run)."),
